@@ -16,9 +16,15 @@ def codes(g, s):
     return [c[t] for t in s.split()]
 
 
-def corpus():
+def corpus(tier="quick"):
     """list of (name, steps under test [scenario lines], uses slot 0)"""
     C = []
+    if tier == "thorough":
+        from . import ansic
+        a = ansic.ensure()
+        toks = [int(x) for x in open(a["toks"]["test.i"]).read().split()[:1500]]
+        C.append(("define_ansic_description", ["new 0", "desc 0 1 " + hx(a["text"])]))
+        C.append(("parse_ansic_1500_tokens_norecovery", ["new 0", "set 0 rec 0", "desc 0 1 " + hx(a["text"])] + emit_tokens(toks) + ["parse 0 2 n"]))
     C.append(("create", ["new 0"]))
     C.append(("define_callbacks_etf", ["new 0"] + emit_define(ETF, 0, 1)))
     C.append(("define_callbacks_list_nonstrict", ["new 0"] + emit_define(LIST, 0, 0)))
@@ -169,7 +175,7 @@ def check(tier):
     total_allocs = 0
     exhaustive = True
     table = []
-    for name, steps in corpus():
+    for name, steps in corpus(tier):
         for warm in (False, True):
             n = count_allocs(exe, steps, warm)
             total_allocs += n
